@@ -69,6 +69,12 @@ CHECKS.update({
    text="Seeded histories into which hostile statements are injected at any point of any session or in autocommit; every call must return (a hung or dead worker process is attributed to its seed by the supervisor), no engine thread may panic (panic hook checked after every call), and the session and database must afterwards hold exactly what the reference model holds. The input half of the property is input generation; the simulation content is the liveness / conservation half."),
 })
 
+CHECKS.update({
+ "C12": dict(engine="E1-sqlsim", level="exploration", ref="4 (C12), 2.3 (E1)",
+   technique="deterministic simulation, differential over configurations: each seeded history is executed against three databases (reference; 24-36 page cache; random page size / min keys / siblings / pool) and every result and the final contents are compared with the reference model and across configurations; evictions measured by a cache probe",
+   text="One seeded history (many uniform ~0.5 KiB rows in two tables, sessions, batches, deletes) is executed under three configurations drawn from the documented ranges; every statement result, every state check and the logical event log must be identical, and no out-of-memory error is accepted at >= 24 cache pages. A run counts as non-trivial only if the small-cache configuration really evicted pages (cache probe). Rows with overflow chains, mixed cell sizes and UPDATE are outside the region (open findings D31/D32)."),
+})
+
 NOT_APPLICABLE = {
  "C05": "pure function of (table contents, query text): no schedule, crash point, clock or interleaving enters it; needs differential/property-based testing, not simulation",
  "C18": "pure function of (stored bytes, schema, snapshot, horizon); the property asks for bounded exhaustive enumeration of a codec, not simulation",
